@@ -1248,6 +1248,10 @@ namespace MASA
     Scalar eval_exact_v  (Scalar,Scalar);
     Scalar eval_exact_p  (Scalar,Scalar);
     Scalar eval_exact_rho(Scalar,Scalar);
+    Scalar eval_exact_u  (Scalar,Scalar,Scalar);
+    Scalar eval_exact_v  (Scalar,Scalar,Scalar);
+    Scalar eval_exact_p  (Scalar,Scalar,Scalar);
+    Scalar eval_exact_rho(Scalar,Scalar,Scalar);
     Scalar eval_exact_nu (Scalar,Scalar,Scalar);
   };
 
